@@ -32,16 +32,23 @@ def run_case(tid, recs):
     from shangrla.core.Audit import CVR
     rec = {"kind": "merge", "tid": tid, "recs": recs, "error": False}
     cvrs = []
+    # tally-pool labels as they occur in practice include falsy ones: the label "Z" stands for the integer 0
+    label = {"none": None, "Z": 0}
+    unlabel = lambda v: "none" if v is None else ("Z" if (v == 0 and v is not False and not isinstance(v, str)) else str(v))
     for pos, r in enumerate(recs, start=1):
-        cvrs.append(CVR(id=r["id"], votes={c: {"src": pos} for c in r["cons"]}, phantom=r["phantom"], pool=r["pool"],
-                        tally_pool=(None if r["tpool"] == "none" else r["tpool"])))
+        # each record's votes in a contest carry a candidate only that record has, so a merge that mixes two
+        # records' selections inside one contest is visible
+        cvrs.append(CVR(id=r["id"], votes={c: {"src": pos, f"only{pos}": 1} for c in r["cons"]}, phantom=r["phantom"],
+                        pool=r["pool"], tally_pool=label.get(r["tpool"], r["tpool"])))
     try:
         with warnings.catch_warnings():
             warnings.simplefilter("ignore")
             out = CVR.merge_cvrs(cvrs)
-        rec["out"] = [{"id": str(c.id), "votes": {con: int(v["src"]) for con, v in c.votes.items()},
-                       "phantom": flag(c.phantom), "pool": flag(c.pool),
-                       "tpool": ("none" if c.tally_pool is None else str(c.tally_pool))} for c in out]
+        def src(v):      # the position of the record whose selections these are; 0 if they are a mixture
+            p = int(v.get("src", 0))
+            return p if v == {"src": p, f"only{p}": 1} else 0
+        rec["out"] = [{"id": str(c.id), "votes": {con: src(v) for con, v in c.votes.items()},
+                       "phantom": flag(c.phantom), "pool": flag(c.pool), "tpool": unlabel(c.tally_pool)} for c in out]
     except ValueError:
         rec["error"] = True
     except Exception as ex:
@@ -57,7 +64,7 @@ def run(pid, tier):
     shapes = [(["a", "b"], 2), (["a"], 3)] if tier == "quick" else [(["a", "b"], 3)]
     behs = []
     for ids, maxrecs in shapes:
-        res = mc(ids, ["c1", "c2"], ["P", "Q"], maxrecs)
+        res = mc(ids, ["c1", "c2"], ["P", "Z"], maxrecs)
         rep.add_tlc(f"MC MergeMC ids={ids} maxrecs={maxrecs}", res, consts={"ids": ids, "MaxRecs": maxrecs})
         if res.error:
             raise core.MachineryError(res.error[:2000])
@@ -78,7 +85,7 @@ def run(pid, tier):
         n = rng.randint(3, 9)
         lst = [{"id": rng.choice("abcd"), "cons": sorted(c for c in ("c1", "c2", "c3") if rng.random() < 0.5),
                 "phantom": rng.random() < 0.4, "pool": rng.random() < 0.3,
-                "tpool": rng.choice(["none", "none", "P", "Q"])} for _ in range(n)]
+                "tpool": rng.choice(["none", "none", "P", "Z", "Q"])} for _ in range(n)]
         recs.append(run_case(f"r{k}", lst))
     rd = check_raire.reader_records(rng, 100 if tier == "quick" else 1500)
     for r in rd:
